@@ -216,9 +216,11 @@ EGLPNUM_TYPENAME_QSLIB_INTERFACE int EGLPNUM_TYPENAME_QSopt_primal (
 	rval = check_qsdata_pointer (p);
 	CHECKRVALG (rval, CLEANUP);
 
-	/* If both the basis and the cache exist, then skip the optimization */
+	/* If the basis, the cache and the factorization of the solve they come
+	 * from all exist, then skip the optimization (as QSopt_dual does: a basis
+	 * loaded since then is not the one the stored solution belongs to) */
 
-	if (!p->basis || !p->cache)
+	if (!p->basis || !p->cache || !p->factorok)
 	{
 		rval = opt_work (p, status, 0);
 		CHECKRVALG (rval, CLEANUP);
